@@ -246,7 +246,16 @@ def opWalk (prop : String) (j : Json) : R Verdict := do
     v := { v with nontrivial := acc.npos > 0, dist := bump v.dist s!"positions~{min (acc.npos / 100 * 100) 2000}" }
   if prop == "C17" || prop == "all" then
     let reported := walks.map fun w => (w.id, w.key, w.symbols.map fun s => (s.tag, s.name, s.qn, s.r))
-    v := (v.addCorr "C17" acc.corr17).addSpec "C17" (Spec.C17.holdsProject out reported)
+    -- "every type symbol that RESOLVES to that item": the kinds in the validated trees are the ones
+    -- the scoping rule of C05 prescribes
+    let resOk := match (impl.getObjVal? "stage1").toOption with
+      | none => true
+      | some sj => match list fileResult sj with
+        | .error _ => false
+        | .ok stage1 =>
+          let defined := collectItemKeys stage1
+          resolutionAsSpecified { stage1, out, model := [], defined }
+    v := (v.addCorr "C17" acc.corr17).addSpec "C17" (Spec.C17.holdsProject out reported && resOk)
     let nres := (out.flatMap fun fr => match fr.ast with
       | some b => (allTypesPre b).filter (fun t => match t.kind with | .resolved _ rk => Spec.C17.isItemKind rk | _ => false)
       | none => []).length
